@@ -881,6 +881,7 @@ type C17Case struct {
 	Down   []int    `json:"down,omitempty"`
 	Cut    [][2]int `json:"cut,omitempty"`
 	Remove bool     `json:"remove,omitempty"`
+	Lag    bool     `json:"lag,omitempty"` // a node joins and is cut off from the leader once it knows the dataset, before it learns that it became a replica
 }
 
 func genC17(r *simrt.Rand, tier string) json.RawMessage {
@@ -893,6 +894,15 @@ func genC17(r *simrt.Rand, tier string) json.RawMessage {
 		c.W3.Replicas = c.W3.Nodes
 	}
 	c.Items = r.Range(1, 16)
+	if r.Bool(0.15) {
+		// under-replicated dataset, then a lagging joiner
+		c.W3.Nodes = r.Range(2, 3)
+		c.W3.Replicas = c.W3.Nodes + 1
+		c.W3.Cfg.YieldP = 0
+		c.Lag = true
+		b, _ := json.Marshal(c)
+		return b
+	}
 	if c.W3.Nodes > 1 && r.Bool(0.5) {
 		switch r.Intn(3) {
 		case 0:
@@ -982,7 +992,38 @@ func execC17(raw json.RawMessage, wantLog bool) (out Outcome) {
 		if len(sizes) > 1 {
 			out.Stat("partitions_with_different_sizes", 1)
 		}
-		faulty := len(c.Down) > 0 || len(c.Cut) > 0
+		faulty := len(c.Down) > 0 || len(c.Cut) > 0 || c.Lag
+		rounds := 1
+		if c.Lag {
+			// A node joins. The primaries make it a replica of the under-replicated partitions
+			// (catalogue entries); the joiner is cut off from the leader as soon as it knows the
+			// dataset, so its own catalogue may not say yet that it hosts anything. A node that
+			// picks it for a lookup gets a refusal (the size request fails loudly), never zero.
+			nj := s.addNode(joinList(len(s.nodes)+1, 1, len(s.nodes)))
+			if err := s.startNode(nj); err == nil {
+				s.runUntil(func() bool { return r.datasetOn(nj, info.id) != nil || !nj.alive }, 20*time.Second)
+				if l := s.zeroLeader(); l != nil && nj.alive {
+					s.blocked[[2]uint64{nj.id, l.id}] = true
+					s.blocked[[2]uint64{l.id, nj.id}] = true
+					out.Stat("fault_partition", 1)
+					if d := r.datasetOn(nj, info.id); d != nil {
+						lagging := false
+						for _, p := range d.Partitions {
+							host := false
+							for _, h := range p.NodeIds {
+								host = host || h == nj.id
+							}
+							lagging = lagging || !host
+						}
+						if lagging {
+							out.Stat("joiner_cut_off_before_it_learned_of_its_replicas", 1)
+						}
+					}
+				}
+				s.runFor(3 * time.Second) // the members record the joiner as a replica
+				rounds = 6
+			}
+		}
 		removeFirst := c.Remove && len(c.Down) > 0 && c.W3.Cfg.Seed%2 == 0
 		if removeFirst && s.nodes[0].alive {
 			// the node is removed from the membership while it is still up (so the change can
@@ -1024,45 +1065,47 @@ func execC17(raw json.RawMessage, wantLog bool) (out Outcome) {
 			}
 			s.runFor(2 * time.Second)
 		}
-		for _, n := range s.nodes {
-			if !n.alive {
-				continue
-			}
-			rpc0 := s.rpcCount["/anndb_pb.DataManager/PartitionInfo"]
-			h, _ := r.runRead(W3Op{K: "size", Node: n.idx})
-			remote := s.rpcCount["/anndb_pb.DataManager/PartitionInfo"] - rpc0
-			out.Stat("size_requests", 1)
-			if remote > 0 {
-				out.Stat("size_requests_with_remote_lookups", 1)
-			}
-			if !h.done {
-				r.viol("size-never-returned", "SizeInfo on n%d did not return within 15 simulated seconds", n.idx)
-				continue
-			}
-			if h.err != nil {
-				out.Stat("size_failed_loudly", 1)
-				if !faulty {
-					r.viol("fault-free-size-failed", "no fault is active but SizeInfo on n%d failed: %v", n.idx, h.err)
+		for round := 0; round < rounds; round++ {
+			for _, n := range s.nodes {
+				if !n.alive {
+					continue
 				}
-				continue
-			}
-			got := h.res.(*sizeRes)
-			// could this node reach a replica of every partition?
-			if got.n != wantN {
-				cls := "wrong-sum"
-				if got.n < wantN {
-					cls = "smaller-than-the-sum"
+				rpc0 := s.rpcCount["/anndb_pb.DataManager/PartitionInfo"]
+				h, _ := r.runRead(W3Op{K: "size", Node: n.idx})
+				remote := s.rpcCount["/anndb_pb.DataManager/PartitionInfo"] - rpc0
+				out.Stat("size_requests", 1)
+				if remote > 0 {
+					out.Stat("size_requests_with_remote_lookups", 1)
 				}
-				if faulty {
-					cls += "/while-a-lookup-could-not-succeed"
+				if !h.done {
+					r.viol("size-never-returned", "SizeInfo on n%d did not return within 15 simulated seconds", n.idx)
+					continue
 				}
-				r.viol("len/"+cls, "SizeInfo on n%d reports %d items over %d partitions (%d remote lookups); the partitions hold %d in total (sizes %v)", n.idx, got.n, len(parts), remote, wantN, sizes)
-				continue
+				if h.err != nil {
+					out.Stat("size_failed_loudly", 1)
+					if !faulty {
+						r.viol("fault-free-size-failed", "no fault is active but SizeInfo on n%d failed: %v", n.idx, h.err)
+					}
+					continue
+				}
+				got := h.res.(*sizeRes)
+				// could this node reach a replica of every partition?
+				if got.n != wantN {
+					cls := "wrong-sum"
+					if got.n < wantN {
+						cls = "smaller-than-the-sum"
+					}
+					if faulty {
+						cls += "/while-a-lookup-could-not-succeed"
+					}
+					r.viol("len/"+cls, "SizeInfo on n%d reports %d items over %d partitions (%d remote lookups); the partitions hold %d in total (sizes %v)", n.idx, got.n, len(parts), remote, wantN, sizes)
+					continue
+				}
+				if got.bytes < wantBmin || got.bytes > wantBmax {
+					r.viol("bytes/wrong-sum", "SizeInfo on n%d reports %d bytes, the sum over partitions is within [%d,%d]", n.idx, got.bytes, wantBmin, wantBmax)
+				}
+				out.Stat("sizes_checked_against_sum", 1)
 			}
-			if got.bytes < wantBmin || got.bytes > wantBmax {
-				r.viol("bytes/wrong-sum", "SizeInfo on n%d reports %d bytes, the sum over partitions is within [%d,%d]", n.idx, got.bytes, wantBmin, wantBmax)
-			}
-			out.Stat("sizes_checked_against_sum", 1)
 		}
 	})
 	out.Nontrivial = out.Stats["size_requests"] > 0
